@@ -389,6 +389,9 @@ func ruleLEX1(c *Ctx) {
 			}
 			return true
 		})
+		if !(okCat && okRet) && chainByPrevious(info, fd) {
+			okCat, okRet = true, true
+		}
 		c.check(okCat && okRet, rule, "ast.LexerFactor.NFACons/concatenation", p.Pos(fd.Pos()), "concatenation: T[i].E -> T[i+1].B (eps) for all i, result (T[0].B, T[n].E)",
 			fmt.Sprintf("concatenation is not the chain T[i].E->T[i+1].B over all i with result (T[0].B, T[n].E) (edges {%s}, chain over all i: %v, result: %v)", edgeSet(es), okCat, okRet))
 	} else {
@@ -1974,4 +1977,138 @@ func pkgVarInit(p *Program, pk *packages.Package, o types.Object) ast.Expr {
 		return nil
 	}
 	return init
+}
+
+
+// chainByPrevious recognises the other spelling of a chain over all elements: one loop over the
+// terms that builds the current element, links it to the previous one when there is one, remembers
+// the first, and makes the current the previous as its last, unconditional step:
+//
+//	for _, t := range Terms { cur := t.NFACons(ctx); if prev == nil { first = cur } else { prev.E -> cur.B }; prev = cur }
+//	return {B: first.B, E: prev.E}
+func chainByPrevious(info *types.Info, fd *ast.FuncDecl) bool {
+	par := parents(fd)
+	var loop *ast.RangeStmt
+	ast.Inspect(fd.Body, func(n ast.Node) bool {
+		if rs, ok := n.(*ast.RangeStmt); ok && loop == nil && rs.Value != nil {
+			if fv, _ := selField(info, rs.X); fv != nil && fv.Name() == "Terms" {
+				loop = rs
+			}
+		}
+		return true
+	})
+	if loop == nil || len(loop.Body.List) == 0 {
+		return false
+	}
+	elem := usesObj(info, loop.Value)
+	// cur := <elem>.NFACons(...)
+	var cur types.Object
+	for _, st := range loop.Body.List {
+		as, ok := st.(*ast.AssignStmt)
+		if !ok || len(as.Lhs) != 1 || len(as.Rhs) != 1 {
+			continue
+		}
+		call, ok := as.Rhs[0].(*ast.CallExpr)
+		if !ok {
+			continue
+		}
+		if sel, ok := call.Fun.(*ast.SelectorExpr); ok && sel.Sel.Name == "NFACons" && usesObj(info, sel.X) == elem {
+			cur = usesObj(info, as.Lhs[0])
+		}
+	}
+	if cur == nil {
+		return false
+	}
+	// prev = cur as the last statement of the body, prev declared outside the loop
+	last, ok := loop.Body.List[len(loop.Body.List)-1].(*ast.AssignStmt)
+	if !ok || len(last.Lhs) != 1 || len(last.Rhs) != 1 || last.Tok != token.ASSIGN || usesObj(info, last.Rhs[0]) != cur {
+		return false
+	}
+	prev := usesObj(info, last.Lhs[0])
+	if prev == nil || (prev.Pos() >= loop.Pos() && prev.Pos() <= loop.End()) {
+		return false
+	}
+	// no other assignment of prev inside the loop
+	nPrev := 0
+	ast.Inspect(loop.Body, func(n ast.Node) bool {
+		if as, ok := n.(*ast.AssignStmt); ok {
+			for _, l := range as.Lhs {
+				if usesObj(info, l) == prev {
+					nPrev++
+				}
+			}
+		}
+		return true
+	})
+	if nPrev != 1 {
+		return false
+	}
+	nilFact := func(n ast.Node, v types.Object, wantNil bool) bool {
+		return holds(pathConds(info, par, n), func(e ast.Expr, pos bool) bool {
+			l, op, r, ok := cmpFact(e, pos)
+			if !ok || (op != token.EQL && op != token.NEQ) {
+				return false
+			}
+			isNil := func(x ast.Expr) bool { id, ok := ast.Unparen(x).(*ast.Ident); return ok && id.Name == "nil" }
+			if (usesObj(info, l) == v && isNil(r)) || (usesObj(info, r) == v && isNil(l)) {
+				return (op == token.EQL) == wantNil
+			}
+			return false
+		})
+	}
+	// exactly one AddTransition in the function: prev.E -> cur.B (eps) where prev != nil
+	links := 0
+	okLink := false
+	ast.Inspect(fd.Body, func(n ast.Node) bool {
+		call, ok := n.(*ast.CallExpr)
+		if !ok {
+			return true
+		}
+		sel, ok := call.Fun.(*ast.SelectorExpr)
+		if !ok || sel.Sel.Name != "AddTransition" || len(call.Args) != 2 {
+			return true
+		}
+		links++
+		from, ok1 := ast.Unparen(sel.X).(*ast.SelectorExpr)
+		to, ok2 := ast.Unparen(call.Args[0]).(*ast.SelectorExpr)
+		if ok1 && ok2 && from.Sel.Name == "E" && to.Sel.Name == "B" && usesObj(info, from.X) == prev && usesObj(info, to.X) == cur &&
+			strings.HasSuffix(exprString(call.Args[1]), "Epsilon") && containsNode(loop.Body, call) && nilFact(call, prev, false) {
+			okLink = true
+		}
+		return true
+	})
+	if links != 1 || !okLink {
+		return false
+	}
+	// first = cur exactly where there is no previous element
+	var first types.Object
+	ast.Inspect(loop.Body, func(n ast.Node) bool {
+		as, ok := n.(*ast.AssignStmt)
+		if !ok || len(as.Lhs) != 1 || len(as.Rhs) != 1 || as == last || usesObj(info, as.Rhs[0]) != cur {
+			return true
+		}
+		if o := usesObj(info, as.Lhs[0]); o != nil && o != prev && (nilFact(as, prev, true) || nilFact(as, o, true)) {
+			first = o
+		}
+		return true
+	})
+	if first == nil {
+		return false
+	}
+	// result: {B: first.B, E: prev.E}
+	okRet := false
+	ast.Inspect(fd.Body, func(n ast.Node) bool {
+		if rs, ok := n.(*ast.ReturnStmt); ok && len(rs.Results) == 1 && rs.Pos() > loop.End() {
+			if cl := compositeOf(rs.Results[0]); cl != nil {
+				b, e := kvOf(cl, "B"), kvOf(cl, "E")
+				bs, ok1 := ast.Unparen(b).(*ast.SelectorExpr)
+				es, ok2 := ast.Unparen(e).(*ast.SelectorExpr)
+				if b != nil && e != nil && ok1 && ok2 && bs.Sel.Name == "B" && es.Sel.Name == "E" && usesObj(info, bs.X) == first && usesObj(info, es.X) == prev {
+					okRet = true
+				}
+			}
+		}
+		return true
+	})
+	return okRet
 }
